@@ -16,7 +16,8 @@ from t4_geom_convert.Kernel.Volume.CellMCNP import CellMCNP
 from t4_geom_convert.Kernel import Utils
 
 from pyvc.contract import contract
-from pyvc.sym import And, Or, Not, implies, iff, is_sym
+from pyvc.sym import And, Or, Not, implies, iff, is_sym, NumStr
+from pyvc.interp import havoc
 
 SYMBOLS = ('H HE LI BE B C N O F NE NA MG AL SI P S CL AR K CA SC TI V CR MN FE CO NI CU ZN GA GE AS SE BR KR RB SR Y '
            'ZR NB MO TC RU RH PD AG CD IN SN SB TE I XE CS BA LA CE PR ND PM SM EU GD TB DY HO ER TM YB LU HF TA W RE '
@@ -162,6 +163,58 @@ class _Rescale:
         yield 'names-in-order', [n for n, _ in result] == list(names)
         yield 'sum-is-the-density', abs(sum(vals) - conc) <= 1e-12 * conc
         yield 'proportional', all(abs(v * sum(fs) - f * conc) <= 1e-12 * conc * sum(fs) for v, f in zip(vals, fs))
+
+
+def _spell(v):
+    """symbolic run: an opaque spelling of the real v; concrete run (replay / sampling): its repr."""
+    return NumStr(v) if is_sym(v) else repr(v)
+
+
+def _val(s):
+    return s.value if isinstance(s, NumStr) else float(s)
+
+
+@contract(CCT4.rescale_fractions, props=['C10'], name='ConstructCompositionT4.rescale_fractions[all-amounts]')
+class _RescaleP:
+    """For *all* real atom fractions f_1..f_n (n <= 4; 5 in the thorough tier) with a non-zero sum and every
+    concentration c: nuclide names kept in order, the concentrations sum to c and are proportional to the fractions.
+    Numbers are opaque spellings (NumStr): normalize_float is replaced by its contract (the value is preserved,
+    bounded contract above), float() of a spelling is its value, and the 15-digit formatting is taken as exact."""
+    samples = 25
+
+    def cases(S):
+        import os
+        for n in (1, 2, 3, 4) + ((5,) if os.environ.get('VERIF_TIER') == 'thorough' else ()):
+            yield f'{n}nuclides', {'fr': S.reals([f'f{i}' for i in range(n)]), 'c': S.real('c')}
+
+    def requires(fr, c):
+        tot = fr[0]
+        for f in fr[1:]:
+            tot = tot + f
+        return tot != 0
+
+    def call(fr, c):
+        return CCT4.rescale_fractions([(f'N{i}', _spell(f)) for i, f in enumerate(fr)], c)
+
+    hooks = {Utils.normalize_float: havoc('normalize_float', lambda fresh, s: s if isinstance(s, NumStr) else s)}
+
+    def ensures(result, fr, c):
+        yield 'names-in-order', [n for n, _ in result] == [f'N{i}' for i in range(len(fr))]
+        vals = [_val(v) for _, v in result]
+        tot, sv = fr[0], vals[0]
+        for f in fr[1:]:
+            tot = tot + f
+        for v in vals[1:]:
+            sv = sv + v
+        if is_sym(sv) or is_sym(tot):
+            yield 'sum-is-the-density', sv == c
+            for i, (v, f) in enumerate(zip(vals, fr)):
+                yield f'proportional{i}', v * tot == f * c
+        else:
+            scale = max(abs(f) for f in fr) * max(1.0, abs(c)) / max(abs(tot), 1e-300)
+            yield 'sum-is-the-density', abs(sv - c) <= 1e-11 * max(abs(c), scale)
+            for i, (v, f) in enumerate(zip(vals, fr)):
+                yield f'proportional{i}', abs(v * tot - f * c) <= 1e-11 * max(abs(f * c), abs(tot) * scale, 1e-300)
 
 
 # ------------------------------------------------------------------ C09
@@ -325,4 +378,4 @@ EXPLANATION = {
             'the MCNP cell that owns it at the lowest universe level.')}
 ASSUMPTIONS = {'C09': ['material numbers are written without leading zeros (m01 vs m1 would differ: GEOMCOMP uses the '
                        'card text, COMPOSITION uses int())'],
-               'C10': ['float() parsing of fractions is trusted']}
+               'C10': ['float() parsing of fractions is trusted', 'rescale_fractions[all-amounts]: real arithmetic stands for IEEE doubles; f"{x:.15e}" is taken as an exact spelling of x (A-fmt); normalize_float replaced by its bounded value-preservation contract']}
